@@ -10,10 +10,10 @@ git -C /repo worktree remove --force $CW 2>/dev/null
 git -C /repo worktree add --detach $CW HEAD -q || exit 3
 trap 'git -C /repo worktree remove --force '$CW' 2>/dev/null' EXIT
 mkdir -p $CW/$PKG; cp "$SD/demo_test.go" $CW/$PKG/zz_seeded_demo_test.go
-( cd $CW && go test -count=1 -run "$PAT" ./$PKG/ >/tmp/cw-$NAME.clean.log 2>&1 ); CLEAN=$?
+( cd $CW && go test ${DEMO_FLAGS:-} -count=1 -run "$PAT" ./$PKG/ >/tmp/cw-$NAME.clean.log 2>&1 ); CLEAN=$?
 ( cd $CW && git apply "$SD/patch.diff" ) || { echo "RESULT $NAME: patch does not apply to current HEAD"; exit 4; }
 ( cd $CW && go build ./... >/tmp/cw-$NAME.build.log 2>&1 ); BUILD=$?
-( cd $CW && go test -count=1 -run "$PAT" ./$PKG/ >/tmp/cw-$NAME.patched.log 2>&1 ); PATCHED=$?
+( cd $CW && go test ${DEMO_FLAGS:-} -count=1 -run "$PAT" ./$PKG/ >/tmp/cw-$NAME.patched.log 2>&1 ); PATCHED=$?
 rm -f $CW/$PKG/zz_seeded_demo_test.go
 /verif/tools/baseline.py $CW >/tmp/cw-$NAME.base.log 2>&1; BASE=$?
 echo "demo clean exit=$CLEAN (want 0), build=$BUILD (want 0), demo patched exit=$PATCHED (want !=0), baseline=$BASE (want 0)"
@@ -30,7 +30,7 @@ cp "$SD/demo_test.go" /verif/seeded/$NAME/demo_test.go
 python3 - "$NAME" "$PROP" "$PKG" "$PAT" "$CLEAN" "$BUILD" "$PATCHED" "$BASE" "$RC" "$KEYS" "$B" <<'PY'
 import json,sys,os
 name,prop,pkg,pat,clean,build,patched,base,rc,keys,b=sys.argv[1:]
-meta={"id":name,"breaks_property":prop,"demo":{"copy_into":pkg,"command":"go test -count=1 -run '%s' ./%s/"%(pat,pkg),
+meta={"id":name,"breaks_property":prop,"demo":{"copy_into":pkg,"command":("go test %s -count=1 -run '%s' ./%s/"%(os.environ.get("DEMO_FLAGS",""),pat,pkg)).replace("  "," "),
   "exit_on_clean_tree":int(clean),"exit_with_patch":int(patched)},
  "builds":int(build)==0,"baseline_suite_passes_with_patch":int(base)==0,
  "check":{"command":"VERIF_BUDGET=%s ./check %s quick"%(b,prop),"exit":int(rc),"violation_keys":keys.split()},
